@@ -199,6 +199,12 @@ pub fn confuse_value(r: &mut Rng, v: &mut Vec<i64>) {
         let pool = [v[i + 2], (v[i + 2] + 32) % 128, (v[i + 2] + 96) % 128, v[i + 3], v[n - 2], (v[n - 2] + 32) % 128];
         v[n - 1] = r.pick(&pool).clamp(0, 127);
     }
+    // ... and the controller number by a byte derived from an earlier value
+    if n >= 8 && v[n - 4] != 2 && v[n - 4] != 8 && v[n - 4] != 10 && v[n - 3] >= 176 && v[n - 3] < 192 && r.chance(1, 10) {
+        let i = 4 * r.below((n / 4 - 1) as u64) as usize;
+        let pool = [v[i + 3], (v[i + 3] + 96) % 128, (v[i + 3] + 32) % 128];
+        v[n - 2] = r.pick(&pool).clamp(0, 127);
+    }
 }
 
 fn random_op_inner(r: &mut Rng, nch: u64, v: &mut Vec<i64>) {
